@@ -4,6 +4,8 @@ package main
 // lockset analysis (A3).
 
 import (
+	"fmt"
+	"go/constant"
 	"go/token"
 	"go/types"
 	"regexp"
@@ -718,50 +720,100 @@ type Assume struct {
 }
 
 func condValue(cond ssa.Value, assumes []Assume) (bool, bool) {
+	return condValuePhi(cond, assumes, nil)
+}
+
+func condValuePhi(cond ssa.Value, assumes []Assume, phiVals map[*ssa.Phi]bool) (bool, bool) {
 	if u, ok := cond.(*ssa.UnOp); ok && u.Op == token.NOT {
-		v, known := condValue(u.X, assumes)
+		v, known := condValuePhi(u.X, assumes, phiVals)
 		return !v, known
+	}
+	if k, ok := cond.(*ssa.Const); ok && k.Value != nil && k.Value.Kind() == constant.Bool {
+		return constant.BoolVal(k.Value), true
+	}
+	if ph, ok := cond.(*ssa.Phi); ok {
+		if v, known := phiVals[ph]; known {
+			return v, true
+		}
 	}
 	t := Term(cond)
 	for _, a := range assumes {
-		re := regexpMustCompile(a.Re)
-		if re.MatchString(t) {
+		if regexpMustCompile(a.Re).MatchString(t) {
 			return a.Val, true
 		}
 	}
-	// x == false / x != true style comparisons are not produced by go/ssa for
-	// plain boolean tests; comparisons are matched by their own term.
 	return false, false
 }
 
 // PrunedCanReach: starting after `from` (entry when nil), can some path reach
 // an instruction satisfying target without executing one satisfying stop,
 // when every branch whose condition matches an assumption takes only the
-// assumed edge?  target == nil means "a normal return".
+// assumed edge?  target == nil means "a normal return".  Boolean phis (the
+// lowering of && / ||, also when stored in a local) are evaluated along the
+// path from the edge they were entered through.
 func PrunedCanReach(fn *ssa.Function, from ssa.Instruction, assumes []Assume, target, stop instrPred) (bool, []*ssa.BasicBlock) {
 	if len(fn.Blocks) == 0 {
 		return false, nil
 	}
 	type item struct {
-		b     *ssa.BasicBlock
-		start int
-		trail []*ssa.BasicBlock
+		b       *ssa.BasicBlock
+		pred    *ssa.BasicBlock
+		start   int
+		trail   []*ssa.BasicBlock
+		phiVals map[*ssa.Phi]bool
 	}
 	var work []item
 	if from == nil {
-		work = append(work, item{fn.Blocks[0], 0, nil})
+		work = append(work, item{fn.Blocks[0], nil, 0, nil, nil})
 	} else {
-		work = append(work, item{from.Block(), instrIndex(from) + 1, nil})
+		work = append(work, item{from.Block(), nil, instrIndex(from) + 1, nil, nil})
 	}
-	seen := map[*ssa.BasicBlock]bool{}
+	seen := map[string]bool{}
+	keyOf := func(b *ssa.BasicBlock, pv map[*ssa.Phi]bool) string {
+		var parts []string
+		for ph, v := range pv {
+			parts = append(parts, fmt.Sprintf("%s=%v", ph.Name(), v))
+		}
+		sort.Strings(parts)
+		return fmt.Sprintf("%d|%s", b.Index, strings.Join(parts, ","))
+	}
 	for len(work) > 0 {
 		it := work[len(work)-1]
 		work = work[:len(work)-1]
+		pv := it.phiVals
 		if it.start == 0 {
-			if seen[it.b] {
+			// evaluate boolean phis of this block from the incoming edge
+			if it.pred != nil {
+				idx := -1
+				for i, p := range it.b.Preds {
+					if p == it.pred {
+						idx = i
+					}
+				}
+				for _, in := range it.b.Instrs {
+					ph, ok := in.(*ssa.Phi)
+					if !ok {
+						break
+					}
+					if b, isB := ph.Type().Underlying().(*types.Basic); !isB || b.Kind() != types.Bool || idx < 0 {
+						continue
+					}
+					npv := map[*ssa.Phi]bool{}
+					for k, v := range pv {
+						npv[k] = v
+					}
+					delete(npv, ph)
+					if v, known := condValuePhi(ph.Edges[idx], assumes, pv); known {
+						npv[ph] = v
+					}
+					pv = npv
+				}
+			}
+			k := keyOf(it.b, pv)
+			if seen[k] {
 				continue
 			}
-			seen[it.b] = true
+			seen[k] = true
 		}
 		trail := append(append([]*ssa.BasicBlock{}, it.trail...), it.b)
 		blocked := false
@@ -784,7 +836,7 @@ func PrunedCanReach(fn *ssa.Function, from ssa.Instruction, assumes []Assume, ta
 		succs := it.b.Succs
 		if len(it.b.Instrs) > 0 {
 			if ifi, ok := it.b.Instrs[len(it.b.Instrs)-1].(*ssa.If); ok {
-				if v, known := condValue(ifi.Cond, assumes); known {
+				if v, known := condValuePhi(ifi.Cond, assumes, pv); known {
 					if v {
 						succs = succs[:1]
 					} else {
@@ -794,7 +846,7 @@ func PrunedCanReach(fn *ssa.Function, from ssa.Instruction, assumes []Assume, ta
 			}
 		}
 		for _, s := range succs {
-			work = append(work, item{s, 0, trail})
+			work = append(work, item{s, it.b, 0, trail, pv})
 		}
 	}
 	return false, nil
